@@ -50,8 +50,15 @@ func (c cutExpr) expr() expr.Expr {
 
 	ex := c.ex
 	if c.begin > 0 {
+		// The shift has to be at least c.end bytes wide. Otherwise the
+		// shift amount might not fit width of a narrow ex.
+		w := ex.Width()
+		if w < c.end {
+			w = c.end
+		}
+
 		shift := expr.ConstFromUint(uint16(c.begin) * 8)
-		ex = expr.NewBinary(expr.Rsh, ex, shift, ex.Width())
+		ex = expr.NewBinary(expr.Rsh, ex, shift, w)
 	}
 
 	return exprtransform.SetWidth(ex, c.end-c.begin)
